@@ -720,6 +720,14 @@ fn run_target(t: &Target, bad_attr: Option<usize>) -> Result<Result<(), String>,
 				if let Some(i) = bad_attr {
 					attrs.push(rcgen::Attribute { oid: BAD_STATIC_OIDS[i], values: vec![0x31, 0x00] });
 				}
+				// now and then the caller supplies an extensionRequest attribute of their own (next to, or
+				// instead of, the one the parameters give rise to)
+				if c.attrs.len() % 3 == 1 {
+					const EXT_REQ: &[u64] = &[1, 2, 840, 113549, 1, 9, 14];
+					let ext = crate::forge::enc_ext(&[1, 3, 6, 1, 4, 1, 55555, 3], false, &[0x05, 0x00]);
+					let at = c.attrs.len() / 2;
+					attrs.insert(at.min(attrs.len()), rcgen::Attribute { oid: EXT_REQ, values: crate::der::enc_tlv(0x31, &crate::der::enc_seq(&[ext])) });
+				}
 				let _ = params.serialize_request_with_attributes(&key, attrs);
 			},
 			Target::Crl(c) => {
